@@ -195,8 +195,8 @@ def run_case(case, res):
                 chk("get_parent_list(add_self)", x.get_parent_list(add_self=True), A + [x], x)
                 chk("get_parent_list(bottom_up)", x.get_parent_list(bottom_up=True), A[::-1], x)
                 chk("get_parent_list(add_self,bottom_up)", x.get_parent_list(add_self=True, bottom_up=True), [x] + A[::-1], x)
-                chk("path", x.path, "/" + "/".join(a.name for a in A + [x]), x)
-                chk("get_path(add_self=False)", x.get_path(add_self=False), "/" + "/".join(a.name for a in A), x)
+                chk("path", x.path, "/" + "/".join(gen.expected_name(a) for a in A + [x]), x)
+                chk("get_path(add_self=False)", x.get_path(add_self=False), "/" + "/".join(gen.expected_name(a) for a in A), x)
                 chk("get_path(sep)", x.get_path(separator="|", repr="<{node.data}>"), "|" + "|".join(f"<{a.data}>" for a in A + [x]), x)
                 D = desc(x)
                 chk("count_descendants", x.count_descendants(), len(D), x)
